@@ -186,7 +186,7 @@ func checkC11(c *Ctx) {
 	c.Expect("C11-R6", 1)
 	c.Expect("C11-R1", 1)
 	c.Expect("C11-R2", 1)
-	c.Expect("C11-R3", 4)
+	c.Expect("C11-R3", 3)
 	c.Expect("C11-R4", 3)
 	p := c.P("linux")
 	if p == nil || p.Tcell == nil {
@@ -313,14 +313,20 @@ func checkC11(c *Ctx) {
 			}
 			c.Check(hasDis && hasS && hasE, "C11-R3", fmt.Sprintf("prepareBracketedPaste:branch#%d", n), p.pos(st.Pos()), fmt.Sprintf("enable string set together with disable string (%v) and both bracket keys (start %v, end %v)", hasDis, hasS, hasE))
 		}
-		if n < 2 {
-			c.Undecided("C11-R3", "prepareBracketedPaste:branches", p.pos(pb.Pos()), "expected two configuration branches")
+		if n < 1 {
+			c.Undecided("C11-R3", "prepareBracketedPaste:branches", p.pos(pb.Pos()), "no place sets the enable string")
 		}
 		pf := p.Fn("tcell:(*tScreen).parseFunctionKey")
 		if pf == nil {
 			c.Undecided("C11-R3", "parseFunctionKey", "-", "not found")
 		} else {
-			for _, call := range callsIn(pf, func(nm string, _ *ssa.CallCommon) bool { return strings.HasSuffix(nm, "NewEventPaste") }) {
+			var pasteCalls []ssa.Instruction
+			for _, d := range deepInstrs(p, pf, 1, nil) {
+				if cc := callCommon(d.in); cc != nil && strings.HasSuffix(calleeName(cc), "NewEventPaste") {
+					pasteCalls = append(pasteCalls, d.in)
+				}
+			}
+			for _, call := range pasteCalls {
 				v, _ := constBool(callCommon(call).Args[0])
 				want := kEnd
 				if v {
